@@ -159,7 +159,16 @@ fn gen_affix_doc(rng: &mut Rng, plain_strike: bool) -> Vec<Node> {
         if i > 0 {
             nodes.push(Node::Space);
         }
-        if g.rng.chance(1, 2) {
+        if g.rng.chance(1, 8) {
+            // an element without any rendered content still gets its affixes
+            let t = *g.rng.pick(&["em", "strong", "code", "s", "i", "del"]);
+            let inner = match g.rng.below(3) {
+                0 => vec![],
+                1 => vec![Node::Comment("c".into())],
+                _ => vec![El::new("span").node()],
+            };
+            nodes.push(El::with(t, inner).node());
+        } else if g.rng.chance(1, 2) {
             let t = *g.rng.pick(&tags);
             match t {
                 "img" => {
@@ -246,6 +255,29 @@ fn run_case(seed: u64, idx: u64, _tier: Tier, out: &mut CaseOut) {
                     if interesting && r.compared {
                         out.observe(crate::rng::hash_str(&s) ^ w as u64);
                     }
+                    // the same block through the three-step API with the tree built under a
+                    // different decorator: the custom decorator's strings and widths must be
+                    // the ones that count
+                    let build = cross_build_cfg(&cfg, rng.next());
+                    let cr = render_cross(&build, &cfg, &input, &[w]);
+                    out.evals += 1;
+                    out.inc("cross_decorator_renderings");
+                    let got = match &cr {
+                        Outcome::Ok(v) => v[0].clone(),
+                        o => o.clone().map(|_| String::new()),
+                    };
+                    if got != Outcome::Ok(s.clone()) {
+                        out.violate(
+                            format!("C16:tree-built-under-another-decorator:{}", if got.is_ok() { "text" } else { "outcome" }),
+                            format!(
+                                "a tree built under the {} decorator and rendered with the custom decorator gives {} instead of the one-shot result",
+                                build.deco.name(),
+                                match &got { Outcome::Ok(t) => format!("{:?}", truncate(t, 80)), o => o.kind() }
+                            ),
+                            witness(&input, w, &cfg, json!({"one_shot": s, "build_config": build.describe()})),
+                        );
+                        return;
+                    }
                 }
             }
         }
@@ -260,6 +292,9 @@ fn run_case(seed: u64, idx: u64, _tier: Tier, out: &mut CaseOut) {
             let nodes = gen_affix_doc(&mut rng, strike);
             let mut expected = String::new();
             expected_inline(&nodes, &spec, &mut expected, false);
+            // an element that contributes nothing at all (no content, empty affixes)
+            // leaves two collapsible spaces next to each other, or one at an edge
+            let expected = expected.split(' ').filter(|x| !x.is_empty()).collect::<Vec<_>>().join(" ");
             let doc = vec![El::with("p", nodes).node()];
             let input = ast::serialize(&doc, &mut Fmt::canonical());
             let mut cfg = Cfg::new(Deco::Custom(spec.clone()));
